@@ -253,3 +253,45 @@ package tree
 //@                   (ll.MinElements == 0 || leafListLen(tvOf(s.leafVariants.les[i].Update)) >= ll.MinElements) &&
 //@                   (ll.MaxElements == 0 || leafListLen(tvOf(s.leafVariants.les[i].Update)) <= ll.MaxElements) &&
 //@                   called(Value) && callres(Value, 0, 1) == nil ==> ntrace() == n0)
+
+// ---------------------------------------------------------------------------
+// C10: every list entry carries all its keys with the right values (JSON rendering)
+
+// read-only structural accessors of a tree entry (assumed deterministic and effect free; implemented by sharedEntryAttributes)
+//@ iface Entry.PathName
+//@   pure
+//@ iface Entry.GetParent
+//@   pure
+//@ iface Entry.GetSchema
+//@   pure
+//@ iface Entry.GetSchemaKeys
+//@   pure
+//@ spec schemaAncOf(Entry) Entry
+//@ spec levelsUpOf(Entry) Int
+//@ iface Entry.GetFirstAncestorWithSchema
+//@   noeffect
+//@   ensures r0 == schemaAncOf(self) && r1 == levelsUpOf(self)
+
+// anc(e, k): the k-th ancestor of e (anc(e, 0) = e)
+//@ spec anc(Entry, Int) Entry
+//@ axiom anc_zero: allof(e, Entry, trigger(anc(e, 0), anc(e, 0) == e))
+//@ axiom anc_step: allof(e, Entry, allint(k, trigger(anc(e, k).GetParent(), k >= 0 ==> anc(e, k + 1) == anc(e, k).GetParent())))
+
+// the key level names of the list entry that s lies in: level j above s is named by key number levelsUp-1-j
+//@ func jsonAddKeyElements
+//@   props C10
+//@   requires s != nil && dict != nil
+//@   let up = levelsUpOf(s)
+//@   let keys = schemaAncOf(s).GetSchemaKeys()
+//@   requires keys_known: schemaAncOf(s) != nil && 0 <= up && up <= len(keys) && forall(i, 0, up, forall(j, 0, up, i != j ==> keys[i] != keys[j])) && forall(k, 0, up, anc(s, k) != nil)
+//@   modifies mapof(dict)
+//@   ensures all_keys_present: forall(i, 0, up, present(dict, keys[i]))
+//@   ensures added_keys_carry_their_level_name: forall(i, 0, up, !old(present(dict, keys[i])) ==> dict[keys[i]] == anc(s, up - 1 - i).PathName())
+//@   ensures existing_entries_kept: allstr(k, old(present(dict, k)) ==> present(dict, k) && dict[k] == old(dict[k]))
+//@   ensures nothing_else_added: allstr(k, present(dict, k) && !old(present(dict, k)) ==> exists(i, 0, up, keys[i] == k))
+//@   loop 0 invariant -1 <= i && i < up
+//@   loop 0 invariant treeElem == anc(s, up - 1 - i)
+//@   loop 0 invariant forall(j, i + 1, up, present(dict, keys[j]) && (!old(present(dict, keys[j])) ==> dict[keys[j]] == anc(s, up - 1 - j).PathName()))
+//@   loop 0 invariant allstr(k, old(present(dict, k)) ==> present(dict, k) && dict[k] == old(dict[k]))
+//@   loop 0 invariant allstr(k, present(dict, k) && !old(present(dict, k)) ==> exists(j, i + 1, up, keys[j] == k))
+//@   loop 0 invariant unchanged(allmaps(map[string]any), dict)
